@@ -29,44 +29,21 @@ TSchema == IsEvent("Schema") /\ sl' = l
 \* nothing blocks, otherwise a line that is not ok stops the trace there.
 Say(ok, how) == PrintT(<<"VERDICT", l, ok, how>>) /\ (Inventory \/ ok)
 
-\* messages reachable from the RPC's top-level message (excluding it) that carry codec annotations
-RECURSIVE Reach(_, _, _)
-Reach(s, todo, seen) ==
-  IF todo = {} THEN seen
-  ELSE LET n == CHOOSE x \in todo : TRUE
-           refs == IF HasMsg(s, n) THEN {f.ref : f \in {g \in Range(MsgByName(s, n).fields) : g.kind = "message" /\ HasMsg(s, g.ref)}} ELSE {}
-       IN Reach(s, (todo \cup refs) \ (seen \cup {n}), seen \cup {n})
-Annotated(s, M) ==
-  \/ \E f \in Range(M.fields) : f.ann.int64 = "NUMBER" \/ f.ann.enumEnc = "NUMBER" \/ f.ann.nullable \/ f.ann.empty \in {"NULL", "OMIT"}
-                                   \/ f.ann.ts \in {"UNIX_SECONDS", "UNIX_MILLIS", "DATE"} \/ f.ann.bytes \notin {"", "BASE64"}
-                                   \/ f.ann.flatten \/ f.ann.unwrap
-                                   \/ (f.kind = "enum" /\ HasEnum(s, f.ref) /\ \E v \in Range(EnumByName(s, f.ref).values) : v.custom # "")
-  \/ \E o \in Range(M.oneofs) : o.hasCfg
-  \/ \E f \in Range(M.fields) : f.card = "map" /\ f.kind = "message" /\ HasMsg(s, f.ref) /\ HasUnwrap(MsgByName(s, f.ref))
-NestedAnnotated(s, top) == \E n \in Reach(s, {top}, {}) \ {top} : Annotated(s, MsgByName(s, n))
-\* a message on the way encodes its children with encoding/json instead of the proto3 JSON mapping
-\* (flatten, discriminated oneof, map-value unwrap): irregular, left unconstrained under its finding
-UsesStdJson(s, M) ==
-  \/ \E f \in Range(M.fields) : f.ann.flatten
-  \/ \E o \in Range(M.oneofs) : o.hasCfg
-  \/ \E f \in Range(M.fields) : f.card = "map" /\ f.kind = "message" /\ HasMsg(s, f.ref) /\ HasUnwrap(MsgByName(s, f.ref))
-StdJsonOnPath(s, top) == \E n \in Reach(s, {top}, {}) : UsesStdJson(s, MsgByName(s, n))
-\* enum custom values / numeric enum encoding have no effect in the Go codecs
-EnumAnnotated(s, top) ==
-  \E n \in Reach(s, {top}, {}) : \E f \in Range(MsgByName(s, n).fields) :
-     f.kind = "enum" /\ (f.ann.enumEnc = "NUMBER" \/ (HasEnum(s, f.ref) /\ \E v \in Range(EnumByName(s, f.ref).values) : v.custom # ""))
-
 Top(e) == e.val.type
 FormHow(e) ==
   IF e.ok /\ Canon(e.json) = Enc(schema, e.val) THEN "contract"
   ELSE IF "D_nested_codec_ignored" \in Dev /\ NestedAnnotated(schema, Top(e)) /\ e.ok /\ Canon(e.json) = EncPlainNested(schema, e.val)
        THEN "D_nested_codec_ignored"
+  ELSE IF "D_unwrap_empty_as_null" \in Dev /\ e.ok /\ Canon(e.json) = EncVariant(schema, e.val, FALSE, TRUE) THEN "D_unwrap_empty_as_null"
+  ELSE IF "D_unwrap_empty_as_null" \in Dev /\ "D_nested_codec_ignored" \in Dev /\ NestedAnnotated(schema, Top(e)) /\ e.ok
+          /\ Canon(e.json) = EncVariant(schema, e.val, TRUE, TRUE) THEN "D_nested_codec_ignored"
   ELSE IF "D_enum_annotations_ignored" \in Dev /\ EnumAnnotated(schema, Top(e)) THEN "D_enum_annotations_ignored"
   ELSE IF "D_stdjson_children" \in Dev /\ StdJsonOnPath(schema, Top(e)) THEN "D_stdjson_children"
   ELSE IF "D_int64_number_on_map_ignored" \in Dev
           /\ \E n \in Reach(schema, {Top(e)}, {}) : \E f \in Range(MsgByName(schema, n).fields) : f.card = "map" /\ f.ann.int64 = "NUMBER"
        THEN "D_int64_number_on_map_ignored"
-  ELSE IF "D_client_no_unwrap" \in Dev /\ e.client /\ \E n \in Reach(schema, {Top(e)}, {}) : Annotated(schema, MsgByName(schema, n)) /\ (HasUnwrap(MsgByName(schema, n)) \/ UsesStdJson(schema, MsgByName(schema, n)))
+  ELSE IF "D_client_no_unwrap" \in Dev /\ e.client
+          /\ \E n \in Reach(schema, {Top(e)}, {}) : HasUnwrap(MsgByName(schema, n)) \/ UnwrapContainer(schema, MsgByName(schema, n))
        THEN "D_client_no_unwrap"
   ELSE "none"
 RoundHow(e) ==
